@@ -10,7 +10,7 @@ package app
 //@   ensures result != nil && fresh(result) && result.State == state && result.Router == ctx.actionRouter && result.Router != nil
 
 //@ func (*App).txDeliverer$1
-//@   requires app != nil && app.Context.deliver != nil && wfState(app.Context.deliver) && !sessOpen(app.Context.deliver) && app.Context.actionRouter != nil && app.Context.stateDB != nil
+//@   requires app != nil && app.Context.deliver != nil && wfState(app.Context.deliver) && !sessOpen(app.Context.deliver) && sgas(app.Context.deliver) >= 0 && app.Context.actionRouter != nil && app.Context.stateDB != nil
 //@   ensures !sessOpen(app.Context.deliver)                                                                                          // C06.session-closed
 //@   ensures result.Code != 0 ==> bHas(app.Context.deliver) == old(bHas(app.Context.deliver)) && bVal(app.Context.deliver) == old(bVal(app.Context.deliver))   // C06.failed-noop
 
@@ -19,5 +19,5 @@ package app
 //@   modifies nothing
 
 //@ func (*App).txChecker$1
-//@   requires app != nil && app.Context.check != nil && wfState(app.Context.check) && app.Context.actionRouter != nil
+//@   requires app != nil && app.Context.check != nil && wfState(app.Context.check) && sgas(app.Context.check) >= 0 && app.Context.actionRouter != nil
 //@   property C04 C06
